@@ -277,6 +277,9 @@ RulesLoop:
 	}
 	// Reset Skip counter at the end of each phase. Skip actions work only within the current processing phase
 	tx.Skip = 0
+	// Same for skipAfter: a marker that is absent, or placed before the jumping rule, must not
+	// keep suppressing the rules of the following phases.
+	tx.SkipAfter = ""
 
 	tx.stopWatches[phase] = time.Now().UnixNano() - ts
 	return tx.IsInterrupted()
